@@ -1188,7 +1188,11 @@ func (vc *VC) applyContract(fr *Frame, st *State, con *Contract, fn *ssa.Functio
 		if lbl == "" {
 			lbl = fmt.Sprintf("%d", i)
 		}
-		if o := vc.addObl(fr, st, "pre", con.Name+"/"+lbl, g, r, pos); o != nil && len(o.Props) == 0 {
+		if vc.top != nil && vc.top.con != nil && vc.top.con.Flags["assumes-callee-pre"] != "" {
+			// a view that checks an ordering property of a large driver function: the representation invariants its callees
+			// require are assumed at the call sites instead of being carried through the driver (listed as an assumption)
+			vc.assumed["view "+vc.top.con.Key()+" assumes the preconditions of its callees (representation invariants of the object, e.g. "+con.Name+": "+r.Text+")"] = true
+		} else if o := vc.addObl(fr, st, "pre", con.Name+"/"+lbl, g, r, pos); o != nil && len(o.Props) == 0 {
 			// a callee's precondition serves the properties the callee's contract is tagged with
 			o.Props = con.Props
 		}
@@ -1211,11 +1215,33 @@ func (vc *VC) applyContract(fr *Frame, st *State, con *Contract, fn *ssa.Functio
 				} else if vc.eng.ss.GhostVars[gv] != nil {
 					kept["GV_"+gv] = vc.get(st, "GV_"+gv, vc.sortOf(vc.eng.parseType(vc.eng.typesPkg(vc.eng.ss.GhostVars[gv].Pkg), vc.eng.ss.GhostVars[gv].Type)))
 				}
+				// a ghost FUNCTION (state-dependent abstract map, e.g. the health flags of the hosts)
+				if sf := vc.eng.ss.SpecFuncs[gv]; sf != nil && sf.Ghost {
+					if t, ok := st.mem["G_"+gv]; ok {
+						kept["G_"+gv] = t
+					} else if spkg := vc.eng.typesPkg(sf.Pkg); spkg != nil {
+						if rt := vc.eng.parseType(spkg, sf.Result); rt != nil {
+							sort := vc.sortOf(rt)
+							okAll := true
+							for i := len(sf.Params) - 1; i >= 0; i-- {
+								pt := vc.eng.parseType(spkg, sf.Params[i].Type)
+								if pt == nil {
+									okAll = false
+									break
+								}
+								sort = ArraySort(vc.sortOf(pt), sort)
+							}
+							if okAll {
+								kept["G_"+gv] = vc.get(st, "G_"+gv, sort)
+							}
+						}
+					}
+				}
 			}
 			vc.havocAll(st, fr.allLocalRoots())
 			for n, t := range kept {
 				st.mem[n] = t
-				vc.assumed["callee "+con.Key()+" is assumed not to reach any operation on ghost variable "+strings.TrimPrefix(n, "GV_")+" (clause preserves)"] = true
+				vc.assumed["callee "+con.Key()+" is assumed not to reach any operation on ghost variable "+strings.TrimPrefix(strings.TrimPrefix(n, "GV_"), "G_")+" (clause preserves)"] = true
 			}
 			vc.havocked["contract without assigns: "+con.Key()] = true
 		} else {
